@@ -29,6 +29,13 @@ OPS2 = [(r"\.0\b(?!\.\d)", ".1"), (r"\.1\b(?!\.\d)", ".0"), (r"\(([a-z_][a-z_0-9
         (r"\.clone\(\)\.all\(", ".all("), (r"idx \+ 1", "idx"), (r"n \+= 1;", ""), (r"Entry::Vacant", "Entry::Occupied"), (r"\? *;\s*$", ".ok();")]
 
 
+OPS3 = [(r"(#\w+) (#\w+)", r"\2 \1"), (r"\bpub ", ""), (r"::core::", "::std::"), (r'"([^"{}]*)\{\}([^"]*)"', r'"\1{}{}\2"'), (r'(\w)>"', r'\1"'), (r'"\(', '"['),
+        (r"#\[codec\(compact\)\]", "#[codec(skip)]"), (r"#\[codec\(skip\)\]", ""), (r"PhantomData", "PhantomPinned"), (r"__ignore", "__ignored"), (r"__Ignore", "__Ignored"),
+        (r"index = #", "index = 1 + #"), (r",\)\*", ")*"), (r"\),\*", ")*"), (r'\("(\w+)"\)', r'("\1_")'), (r"'\{'", "'['"), (r"'\}'", "']'"), (r"'<'", "'['"), (r"'\n'", "' '"),
+        (r'"    "', '"   "'), (r"\.push\(ch\)", ".push(' ')"), (r"u8_unsuffixed", "u8_suffixed"), (r"Compact<\{\}>", "Compact<{}"), (r"Box<", "Bx<"), (r'"Cow"', '"Cov"'),
+        (r"\bsuper::", "self::"), (r"32", "33"), (r"\b7\b", "8"), (r"\b1\b", "2"), (r"\bNone\b(?! =>)", "Some(Default::default())")]
+
+
 def candidates(files, ops=None):
     global OPS
     if ops is not None:
@@ -95,9 +102,10 @@ if __name__ == "__main__":
     ap.add_argument("--stride", type=int, default=1)
     ap.add_argument("--offset", type=int, default=0)
     ap.add_argument("--ops2", action="store_true")
+    ap.add_argument("--ops3", action="store_true")
     a = ap.parse_args()
     files = a.files.split(",") if a.files else FILES
-    cands = candidates(files, OPS2 if a.ops2 else None)[a.offset::a.stride]
+    cands = candidates(files, OPS3 if a.ops3 else OPS2 if a.ops2 else None)[a.offset::a.stride]
     if a.max:
         cands = cands[:a.max]
     print("mutants:", len(cands), flush=True)
